@@ -28,7 +28,8 @@ Lemma circuit_closed_alone (cf : Circuit.cfg) (o : Circuit.outcome) :
   let p3 := Circuit.poll cf s2 0%nat in
   Circuit.started (snd p1) = true /\ Circuit.r (snd p1) = 0 /\
   Circuit.started (snd p3) = false /\
-  Circuit.r (snd p3) = match o with Circuit.OOk _ => 1 | Circuit.OErr _ => 2 | Circuit.OPanic => 5 end.
+  Circuit.r (snd p3) = match o with Circuit.OOk _ => 1 | Circuit.OErr _ => 2
+                                    | Circuit.OPanic | Circuit.OCPanic => 5 end.
 Proof.
   destruct o; cbn; repeat split; reflexivity.
 Qed.
